@@ -237,6 +237,25 @@ func (s *Sim) recordOp(kind Kind, site string, chp unsafe.Pointer, v any, ok boo
 	s.record(r, t)
 }
 
+// recordSent logs a completed send with the description of the value taken *before* the
+// operation: a blocked send is logged when the sender next holds the baton, and by then
+// the receiver may already have written into a slice it was handed.
+//
+//go:norace
+func (s *Sim) recordSent(site string, chp unsafe.Pointer, d Rec, t *task) {
+	d.Kind, d.Site, d.Ok = KSend, site, true
+	d.Ch = s.chanOrd(chp)
+	s.record(d, t)
+}
+
+//go:norace
+func describeRec(v any) Rec {
+	var r Rec
+	r.Val, r.Aux, r.Slice, r.Ptr, r.Cap = describe(v)
+
+	return r
+}
+
 func recvPtr[T any](c <-chan T) unsafe.Pointer { return *(*unsafe.Pointer)(unsafe.Pointer(&c)) }
 func sendPtr[T any](c chan<- T) unsafe.Pointer { return *(*unsafe.Pointer)(unsafe.Pointer(&c)) }
 
@@ -256,6 +275,8 @@ const (
 func Send[T any](site string, c chan<- T, v T) {
 	s, t := enter(site, opSend)
 
+	d := describeRec(any(v))
+
 	select {
 	case c <- v:
 	default:
@@ -264,7 +285,7 @@ func Send[T any](site string, c chan<- T, v T) {
 		s.resume(t)
 	}
 
-	s.recordOp(KSend, site, sendPtr(c), any(v), true, t)
+	s.recordSent(site, sendPtr(c), d, t)
 }
 
 // Recv is `<-c`.
@@ -475,6 +496,9 @@ type sendCase[T any] struct {
 	c chan<- T
 	v T
 	p chan T
+
+	d         Rec // description of v taken before the operation
+	described bool
 }
 
 // RecvCase describes `case ... <-c:`.
@@ -523,10 +547,15 @@ func (rc *recvCase[T]) complete(s *Sim, t *task, site string, rv reflect.Value, 
 func (rc *recvCase[T]) priv() any { return rc.p }
 
 func (sc *sendCase[T]) try(s *Sim, t *task, site string) bool {
+	if !sc.described {
+		sc.d = describeRec(any(sc.v))
+		sc.described = true
+	}
+
 	select {
 	case sc.c <- sc.v:
 		sc.p = make(chan T, 1)
-		s.recordOp(KSend, site, sendPtr(sc.c), any(sc.v), true, t)
+		s.recordSent(site, sendPtr(sc.c), sc.d, t)
 
 		return true
 	default:
@@ -540,7 +569,7 @@ func (sc *sendCase[T]) rcase() reflect.SelectCase {
 
 func (sc *sendCase[T]) complete(s *Sim, t *task, site string, _ reflect.Value, _ bool) {
 	sc.p = make(chan T, 1)
-	s.recordOp(KSend, site, sendPtr(sc.c), any(sc.v), true, t)
+	s.recordSent(site, sendPtr(sc.c), sc.d, t)
 }
 
 func (sc *sendCase[T]) priv() any { return sc.p }
